@@ -442,7 +442,11 @@ func (e *Engine) Discharge(obligs []*Oblig, timeoutS int, stats *DischargeStats)
 			defer wg.Done()
 			sem <- struct{}{}
 			defer func() { <-sem }()
-			r := Solve(j.script, j.quant, timeoutS, e.scratch, j.o.Name)
+			to := timeoutS
+			if j.o.TimeoutS > 0 {
+				to = j.o.TimeoutS
+			}
+			r := Solve(j.script, j.quant, to, e.scratch, j.o.Name)
 			j.o.Result = &r
 		}(&jobs[i])
 	}
@@ -465,7 +469,16 @@ func (e *Engine) Discharge(obligs []*Oblig, timeoutS int, stats *DischargeStats)
 			for _, in := range j.o.Inputs {
 				gm = append(gm, in.T)
 			}
-			s, _ := Script(logicOpts, func(seen map[string]bool) (string, bool) { return strDecls, false }, strLitAxiomsFor(j.o.PC, goal), keep, Not(goal), gm)
+			s, _ := Script(logicOpts, func(seen map[string]bool) (string, bool) {
+				decls := strDecls
+				codec, _ := codecPrelude(seen)
+				for _, ln := range strings.Split(codec, "\n") {
+					if strings.HasPrefix(ln, "(declare-fun") {
+						decls += ln + "\n"
+					}
+				}
+				return decls, false
+			}, strLitAxiomsFor(j.o.PC, goal), keep, Not(goal), gm)
 			cjobs = append(cjobs, job{j.o, s, false})
 		}
 	}
